@@ -1,5 +1,7 @@
 import Cx.Proofs.Fast
 import Cx.Proofs.FastCex
+import Cx.Proofs.CompositeDfa
+import Cx.Proofs.CompositeDfaCex
 /-
   C19 — specialised fast paths are exact on every pattern they accept.
 
@@ -40,6 +42,17 @@ import Cx.Proofs.FastCex
     invariant of `syntax.Parse` output (`firstBytes_negativeMin_needed`).  `C19_firstBytes_wellformed` trades the
     U+FFFD condition for one on the haystack: with the parser invariant alone (`fbMinOK`), the same two conclusions
     hold on every non-empty haystack that begins with a well-formed rune (`WellFormedAt h 0`).
+  * CompositeSequenceDFA (nfa/composite_dfa.go, the table-driven matcher meta prefers over the CompositeSearcher when
+    `NewCompositeSequenceDFA` can build it; model Cx.Model.CompositeDfa): `C19_compositeSequenceDFA` — for EVERY pattern
+    that `IsCompositeCharClassPattern` accepts (the strategy selection) and for which the constructor returns a DFA,
+    `SearchAt` (any offset) and `IsMatch` equal the reference matcher, and the DFA agrees with the backtracking
+    searcher.  Proof: byte classes are exact for ASCII parts; each of the three tables is the subset automaton of the
+    configuration automaton of the part list (anchored / unanchored / anchored on the reversed list), whose
+    configuration sets have a word-level meaning preserved by `computeNextConfigs`; `matchAt` = greatest end = greedy
+    end; earliest end + leftmost start for that end + greatest end = leftmost-first match (exchange argument).
+    Hypotheses: `repOK`, `sorted` as for the CompositeSearcher (parser invariants).  `IsCompositeSequenceDFAPattern`
+    alone would NOT do (it inspects the extracted parts only: non-greedy parts and Latin-1 members pass) —
+    `compositeSequenceDFA_predicate_alone_insufficient`; meta never builds the DFA for such patterns.
   The witnesses of the fixed defects are kept in `Cx.Proofs.FastCex` as `…_fixed` theorems (pattern now rejected, or
   matcher now agrees with the reference).
   `Ref.refFind` is the general leftmost-first reference matcher over the AST (`Cx.Spec.ReRef`), validated against regexp.
@@ -64,6 +77,39 @@ theorem C19_compositeSearcher (re : Re) (c : CompositeSearcher) (hok : isComposi
     (hc : newCompositeSearcher re = some c) (repOK : RepeatOK re) (sorted : ClassSorted re)
     (h : Bytes) (a : Nat) : c.searchAt h a = Ref.refFind re h a :=
   compositeSearcher_eq_reference re c hok hc repOK sorted h a
+
+/-- CompositeSequenceDFA (`c1{m1,} c2{m2,} …` as tables): on EVERY pattern `IsCompositeCharClassPattern` accepts and
+    `NewCompositeSequenceDFA` builds a DFA for (the constructor succeeding implies `IsCompositeSequenceDFAPattern`),
+    `SearchAt` and `IsMatch` are exact w.r.t. the reference matcher, and the DFA agrees with the CompositeSearcher that
+    meta keeps as its fallback.  `repOK`, `sorted`: parser invariants, as in `C19_compositeSearcher`. -/
+theorem C19_compositeSequenceDFA (re : Re) (d : CompDfa.CompositeSequenceDFA)
+    (hok : isCompositeCharClassPattern re = true) (hd : CompDfa.newCompositeSequenceDFA re = some d)
+    (repOK : RepeatOK re) (sorted : ClassSorted re) :
+    CompDfa.isCompositeSequenceDFAPattern re = true ∧
+    (∀ h a, d.searchAt h a = Ref.refFind re h a) ∧
+    (∀ h, d.isMatch h = (Ref.refFind re h 0).isSome) ∧
+    (∀ c, newCompositeSearcher re = some c → ∀ h a, d.searchAt h a = c.searchAt h a) :=
+  ⟨CompDfa.newCompositeSequenceDFA_pred re d hd,
+   fun h a => CompDfa.compositeSequenceDFA_eq_reference re d hok hd repOK sorted h a,
+   fun h => CompDfa.compositeSequenceDFA_isMatch_eq_reference re d hok hd repOK sorted h,
+   fun c hc h a => CompDfa.compositeSequenceDFA_eq_compositeSearcher re d c hok hd hc sorted h a⟩
+
+/-- `IsCompositeSequenceDFAPattern` (and the constructor) alone do not imply exactness: they accept a non-greedy part
+    (`[ab]+[cd]+?` on "acc": DFA (0,3), reference (0,2)) and a Latin-1 class member (`[a\x{e9}]+[cd]+` on E9 63: DFA
+    (0,2), reference none); `IsCompositeCharClassPattern` rejects both patterns.  Confirmed on the Go code. -/
+theorem compositeSequenceDFA_predicate_alone_insufficient :
+    (CompDfa.isCompositeSequenceDFAPattern CompDfa.reLazyTail = true ∧
+      isCompositeCharClassPattern CompDfa.reLazyTail = false ∧
+      (CompDfa.newCompositeSequenceDFA CompDfa.reLazyTail).map (fun d => d.searchAt #[97, 99, 99] 0) = some (some (0, 3)) ∧
+      Ref.refFind CompDfa.reLazyTail #[97, 99, 99] 0 = some (0, 2)) ∧
+    (CompDfa.isCompositeSequenceDFAPattern CompDfa.reLatin1 = true ∧
+      isCompositeCharClassPattern CompDfa.reLatin1 = false ∧
+      (CompDfa.newCompositeSequenceDFA CompDfa.reLatin1).map (fun d => d.searchAt #[233, 99] 0) = some (some (0, 2)) ∧
+      Ref.refFind CompDfa.reLatin1 #[233, 99] 0 = none) :=
+  ⟨⟨CompDfa.lazyTail_accepted.1, CompDfa.lazyTail_accepted.2, CompDfa.lazyTail_counterexample.1,
+    CompDfa.lazyTail_counterexample.2⟩,
+   ⟨CompDfa.latin1_accepted.1, CompDfa.latin1_accepted.2, CompDfa.latin1_counterexample.1,
+    CompDfa.latin1_counterexample.2⟩⟩
 
 /-- what acceptance by `IsCompositeCharClassPattern` implies (the three former hypotheses) -/
 theorem C19_compositeSearcher_fragment (re : Re) (hok : isCompositeCharClassPattern re = true) :
